@@ -25,10 +25,11 @@ pub fn validate_trace(w: &World, trace: &[taffy::verif_hooks::Event]) -> Vec<Str
     use taffy::verif_hooks::Event;
     use taffy::RunMode;
     let mut bad = vec![];
-    // stack of (node, run_mode, hit, set of children that received a PerformLayout query)
-    let mut stack: Vec<(NodeId, RunMode, bool, Vec<NodeId>)> = vec![];
-    let mut hidden_depth: Vec<NodeId> = vec![];
-    for ev in trace {
+    // stack of (node, run_mode, hit, children that received a PerformLayout query, per child: (event index of its last Query,
+    // event index of its last SetLayout))
+    let mut stack: Vec<(NodeId, RunMode, bool, Vec<NodeId>, std::collections::HashMap<NodeId, (Option<usize>, Option<usize>)>)> = vec![];
+    let is_none = |n: NodeId| w.t.style(n).map(|s| s.display == Display::None).unwrap_or(false);
+    for (k, ev) in trace.iter().enumerate() {
         match ev {
             Event::Query { node, input, hit } => {
                 if input.run_mode == RunMode::PerformHiddenLayout {
@@ -36,35 +37,50 @@ pub fn validate_trace(w: &World, trace: &[taffy::verif_hooks::Event]) -> Vec<Str
                     // so a Query event in hidden mode means an algorithm issued it through the cached path)
                     bad.push(format!("WF: hidden-mode query reached compute_cached_layout at {:?}", node));
                 }
+                // HQ (hypothesis of the layout-level theorem): a display:none child never receives a size query
+                if input.run_mode == RunMode::ComputeSize && is_none(*node) && !stack.is_empty() {
+                    bad.push(format!("HQ: display:none node {:?} received a ComputeSize query", node));
+                }
                 if let Some(top) = stack.last_mut() {
                     if input.run_mode == RunMode::PerformLayout {
                         top.3.push(*node);
                     }
+                    top.4.entry(*node).or_insert((None, None)).0 = Some(k);
                 }
-                stack.push((*node, input.run_mode, *hit, vec![]));
+                stack.push((*node, input.run_mode, *hit, vec![], std::collections::HashMap::new()));
             }
             Event::Return { node } => {
-                let (n, mode, hit, visited) = stack.pop().unwrap();
+                let (n, mode, hit, visited, per_child) = stack.pop().unwrap();
                 if n != *node {
                     bad.push("trace nesting broken".to_string());
                 }
-                // H1: a PerformLayout miss at a box-generating node queries every child with PerformLayout
-                if !hit && mode == RunMode::PerformLayout && w.t.style(n).map(|s| s.display != Display::None).unwrap_or(false) {
+                if !hit && mode == RunMode::PerformLayout && !is_none(n) {
                     for ch in w.t.children(n).unwrap() {
+                        // H1: a PerformLayout miss at a box-generating node queries every child with PerformLayout
                         if !visited.contains(&ch) {
                             bad.push(format!("H1: PerformLayout miss at {:?} did not PerformLayout child {:?}", n, ch));
+                        }
+                        // H3 (layout-level theorem): every child gets its layout stored, a display:none child after its last query
+                        match per_child.get(&ch) {
+                            Some((q, Some(sl))) => {
+                                if is_none(ch) && q.map(|q| q > *sl).unwrap_or(false) {
+                                    bad.push(format!("H3: display:none child {:?} of {:?} was queried after its layout was stored", ch, n));
+                                }
+                            }
+                            _ => bad.push(format!("H3: PerformLayout miss at {:?} stored no layout for child {:?}", n, ch)),
                         }
                     }
                 }
             }
-            Event::Hidden { node } => {
-                hidden_depth.push(*node);
-            }
-            Event::SetLayout { .. } => {
-                // NoScribble (NOT assumed by the theorems, recorded as evidence of the known finding): a stored layout written
-                // while some enclosing evaluation only computes a size
+            Event::Hidden { .. } => {}
+            Event::SetLayout { node } => {
+                // NoScribble (NOT assumed by the output-level theorems; hypothesis NS of the layout-level theorem; recorded as
+                // evidence of the known finding): a stored layout written while some enclosing evaluation only computes a size
                 if stack.iter().any(|e| e.1 == RunMode::ComputeSize) {
                     SCRIBBLES.with(|c| c.set(c.get() + 1));
+                }
+                if let Some(top) = stack.last_mut() {
+                    top.4.entry(*node).or_insert((None, None)).1 = Some(k);
                 }
             }
         }
